@@ -22,7 +22,12 @@ def builderFunctions : List String :=
 tail (ElementTree: `Element.__copy__` = new element sharing the children; lxml: deep copy) — the
 caller's element keeps its tail (histories: `serialize(..)` on documents with tails, ET and lxml). -/
 def reviewedCopyWrites : List (String × String × String × String) := [
-  ("element", "elementpath/serialization.py", "serialize_to_xml", "elem.tail =")]
+  ("element", "elementpath/serialization.py", "serialize_to_xml", "elem.tail ="),
+  -- C17 CR marking: `elem = deepcopy(elem)` and then, `for e in elem.iter()`, U+000D in `e.text` / `e.tail` of the
+  -- DEEP COPY is replaced by a private-use marker (ElementTree only); the caller's tree is not reachable from `e`
+  -- (histories: `serialize(..)` on a document with &#13; in text and tail, `tostring` compared before / after)
+  ("element", "elementpath/serialization.py", "serialize_to_xml", "e.tail ="),
+  ("element", "elementpath/serialization.py", "serialize_to_xml", "e.text =")]
 
 /-- files that own the XPath node wrappers (`XPathNode` objects built per context around the
 caller's elements); attribute writes on wrappers are confined to them -/
@@ -94,9 +99,8 @@ def reviewedTokenWrites : List ((String × String × String) × Memo) := [
   (("elementpath/xpath_tokens/functions.py", "XPathFunction.to_partial_function", "self.label ="), .dynamic),
   (("elementpath/xpath_tokens/functions.py", "XPathFunction.to_partial_function", "self.nargs ="), .dynamic),
   (("elementpath/xpath_tokens/functions.py", "XPathFunction.to_partial_function", "setattr(self, ...)"), .dynamic),
-  -- XPathMap is token and value at once; since the C15 phase-2 fix keys()/values()/items() no longer cache `_map`
-  -- on the token (entries removed from this list: a reintroduction has to be reviewed again);
-  -- histories: `map{'k': $v}('k')`, map:keys / size / merge / put
+  -- (the XPathMap sites `_map` / `_nan_key` were removed by the C15 fixes and are no longer in this list:
+  -- a reintroduction has to be reviewed again)
   (("elementpath/xpath_tokens/maps.py", "XPathMap._evaluate", "self._nan_key ="), .dynamic)]
 
 /-- writes, inside functions, to state that outlives a call (module-level names, class attributes,
